@@ -356,7 +356,7 @@ pub fn tomlify(v: &Val) -> Option<Val> {
 
 /// Extension scalars outside the common model (for C06 / C08 / C11).
 pub fn gen_extension_scalar(rng: &mut Rng) -> Val {
-    match rng.below(6) {
+    match rng.below(5) {
         0 => {
             let n = rng.below(6);
             Val::Bytes(rng.bytes(n))
@@ -364,7 +364,6 @@ pub fn gen_extension_scalar(rng: &mut Rng) -> Val {
         1 => Val::F32((rng.next() as u32) & 0x7f7f_ffff),
         2 => Val::Float(f64::NAN.to_bits()),
         3 => Val::Float(f64::INFINITY.to_bits()),
-        4 => Val::Float(f64::NEG_INFINITY.to_bits()),
-        _ => Val::Int((1i128 << 64) + rng.below(1000) as i128),
+        _ => Val::Float(f64::NEG_INFINITY.to_bits()),
     }
 }
